@@ -507,6 +507,15 @@ def _kid(node, st, obj=None):
     raise KeyError(nm)
 
 
+NEG_INDEX = False  # when set, items of arrays of dynamically sized items are addressed from the end (supported there)
+
+
+def _ix(obj, node, idx):
+    if NEG_INDEX and node.spec["k"] == "array" and tg.is_dynamic(node.spec["item"]):
+        return [int(i) - int(n) for i, n in zip(idx, obj._shape)]
+    return idx
+
+
 def obj_get(obj, node, path):
     """follow `path` through the public accessors -> (object or python value, node)"""
     for st in path:
@@ -514,7 +523,7 @@ def obj_get(obj, node, path):
             obj = getattr(obj, st[1])
             node = _kid(node, st)
         elif st[0] == "i":
-            idx = st[1]
+            idx = _ix(obj, node, st[1])
             obj = obj[idx[0]] if len(idx) == 1 else obj[tuple(idx)]
             node = _kid(node, st)
         else:
@@ -530,7 +539,7 @@ def obj_set(obj, node, path, pyvalue):
     if st[0] == "f":
         setattr(parent, st[1], pyvalue)
     elif st[0] == "i":
-        idx = st[1]
+        idx = _ix(parent, pnode, st[1])
         if len(idx) == 1:
             parent[idx[0]] = pyvalue
         else:
